@@ -323,6 +323,20 @@ func scenarios(tier string, seed int64) []scenario {
 		}
 		out = append(out, sc)
 	}
+	// the service ends connection 0 itself after its first bytes; once the agent has been told, a data message for
+	// it that was still on its way arrives. Connection 1 (and the session) must not notice
+	nl := 6
+	if tier == "thorough" {
+		nl = 60
+	}
+	for i := 0; i < nl; i++ {
+		sc := scenario{Conns: 2, Kind: "late-data-after-service-close"}
+		sc.Msgs = []msg{{0, "hello", 0}, {1, "hello", 0}, {1, "data", 10 + i}, {0, "data", 20 + i}, {0, "wait-eof", 0}, {0, "late-data", 30}, {0, "late-data", 0}, {1, "data", 100 + i}, {1, "eof", 0}}
+		if i%2 == 1 {
+			sc.Msgs = append(sc.Msgs[:7:7], msg{0, "eof", 0}, msg{1, "data", 100 + i}, msg{1, "eof", 0})
+		}
+		out = append(out, sc)
+	}
 	nb := 6
 	if tier == "thorough" {
 		nb = 40
@@ -419,6 +433,9 @@ func addrOfSc(sc scenario, k, c int, udp bool) (local, remote waddr) {
 	l, r := addrOf(k, c, sc.V6, udp)
 	if sc.Deadline && !udp {
 		l.Port = 8026
+	}
+	if strings.HasPrefix(sc.Kind, "late-data-after-service-close") && c == 0 && !udp {
+		l.Port = 8031
 	}
 	if sc.Blob > 0 && !udp {
 		l.Port = map[int]int{70000: 8027, 200000: 8028, 65536: 8029}[sc.Blob]
@@ -599,6 +616,22 @@ func runScenario(k int, sc scenario, listen string, key []byte) scnObs {
 				time.Sleep(60 * time.Millisecond) // let the listener process data and EOF while the reader is parked
 				close(gate)
 			}
+		case "wait-eof":
+			l, r := addrOfSc(sc, k, m.Conn, false)
+			key := l.String() + "|" + r.String()
+			deadline := time.Now().Add(3 * time.Second)
+			for time.Now().Before(deadline) {
+				bmu.Lock()
+				got := bk.eof[key]
+				bmu.Unlock()
+				if got {
+					break
+				}
+				time.Sleep(time.Millisecond)
+			}
+		case "late-data":
+			l, r := addrOfSc(sc, k, m.Conn, false)
+			a.send(tRWTCP, encData(encAddr(encAddr(nil, l.Proto, l.IP, l.Port), r.Proto, r.IP, r.Port), stampPayload(k, 70+m.Conn, 0, m.Len)))
 		case "unknown-data":
 			l, r := addrOfSc(sc, k, 77, false)
 			a.send(tRWTCP, encData(encAddr(encAddr(nil, l.Proto, l.IP, l.Port), r.Proto, r.IP, r.Port), []byte("stray")))
@@ -816,7 +849,7 @@ func (prop) Child(b core.Batch, o *core.Obs) {
 	}
 	port := freePort()
 	listen := fmt.Sprintf("127.0.0.1:%d", port)
-	cfg := fmt.Sprintf("[listener]\ntype=\"agent\"\nlisten=%q\n[channel.cap0]\ntype=\"lab-capture\"\nid=\"cap0\"\n[[filter]]\nchannel=[\"cap0\"]\n[service.echo]\ntype=\"lab-stub-plain\"\nname=\"echo\"\necho=true\n[service.echod]\ntype=\"lab-stub-plain\"\nname=\"echod\"\necho=true\nwrite_deadline_ms=5\n[[port]]\nport=\"tcp/8026\"\nservices=[\"echod\"]\n[[port]]\nports=[\"tcp/8022\",\"tcp/8023\",\"tcp/8024\",\"tcp/8025\"]\nservices=[\"echo\"]\n[[port]]\nport=\"udp/8053\"\nservices=[\"echo\"]\n[service.blob70k]\ntype=\"lab-stub-plain\"\nname=\"blob70k\"\nblob_bytes=70000\n[[port]]\nport=\"tcp/8027\"\nservices=[\"blob70k\"]\n[service.blob200k]\ntype=\"lab-stub-plain\"\nname=\"blob200k\"\nblob_bytes=200000\n[[port]]\nport=\"tcp/8028\"\nservices=[\"blob200k\"]\n[service.blob64k]\ntype=\"lab-stub-plain\"\nname=\"blob64k\"\nblob_bytes=65536\n[[port]]\nport=\"tcp/8029\"\nservices=[\"blob64k\"]\n[service.echoslow]\ntype=\"lab-stub-plain\"\nname=\"echoslow\"\necho=true\nreply_delay_ms=40\n[[port]]\nport=\"udp/8054\"\nservices=[\"echoslow\"]\n", listen)
+	cfg := fmt.Sprintf("[listener]\ntype=\"agent\"\nlisten=%q\n[channel.cap0]\ntype=\"lab-capture\"\nid=\"cap0\"\n[[filter]]\nchannel=[\"cap0\"]\n[service.echo]\ntype=\"lab-stub-plain\"\nname=\"echo\"\necho=true\n[service.echod]\ntype=\"lab-stub-plain\"\nname=\"echod\"\necho=true\nwrite_deadline_ms=5\n[[port]]\nport=\"tcp/8026\"\nservices=[\"echod\"]\n[[port]]\nports=[\"tcp/8022\",\"tcp/8023\",\"tcp/8024\",\"tcp/8025\"]\nservices=[\"echo\"]\n[[port]]\nport=\"udp/8053\"\nservices=[\"echo\"]\n[service.blob70k]\ntype=\"lab-stub-plain\"\nname=\"blob70k\"\nblob_bytes=70000\n[[port]]\nport=\"tcp/8027\"\nservices=[\"blob70k\"]\n[service.blob200k]\ntype=\"lab-stub-plain\"\nname=\"blob200k\"\nblob_bytes=200000\n[[port]]\nport=\"tcp/8028\"\nservices=[\"blob200k\"]\n[service.blob64k]\ntype=\"lab-stub-plain\"\nname=\"blob64k\"\nblob_bytes=65536\n[[port]]\nport=\"tcp/8029\"\nservices=[\"blob64k\"]\n[service.echoclose]\ntype=\"lab-stub-plain\"\nname=\"echoclose\"\necho=true\nclose_after_first=true\n[[port]]\nport=\"tcp/8031\"\nservices=[\"echoclose\"]\n[service.echoslow]\ntype=\"lab-stub-plain\"\nname=\"echoslow\"\necho=true\nreply_delay_ms=40\n[[port]]\nport=\"udp/8054\"\nservices=[\"echoslow\"]\n", listen)
 	srv, err := lab.StartWith(cfg, false)
 	if err != nil {
 		o.Emit(core.Rec{T: "starterr", S: err.Error()})
@@ -1061,7 +1094,7 @@ func (prop) Judge(b core.Batch, recs []core.Rec, exits []core.Exit) []core.Resul
 					fail("return-stream|"+sc.Kind, fmt.Sprintf("virtual connection %d: the service wrote %d bytes, %d came back to the agent for it or they differ", ci, c.ReadLen, c.EchoLen))
 				case c.EOFSent && !c.Done:
 					fail("eof-not-delivered|"+sc.Kind, fmt.Sprintf("virtual connection %d: end-of-stream message sent, the service's connection was not ended", ci))
-				case !c.EOFSent && c.Done && !sc.Disconnect:
+				case !c.EOFSent && c.Done && !sc.Disconnect && !(strings.HasPrefix(sc.Kind, "late-data-after-service-close") && ci == 0):
 					fail("ended-without-eof|"+sc.Kind, fmt.Sprintf("virtual connection %d was ended although no end-of-stream was sent for it", ci))
 				}
 			}
